@@ -119,10 +119,15 @@ Section Rules.
     (forall items, jget "allowedValues" raw = JArr items -> Forall RawIntOrStr items).
 
   (* ---------- task parameters ---------- *)
+  (* a range expression a Python container can hold: it parses (C08 characterises that) and has fewer
+     than 2^63 values *)
+  Definition RangeExprOk (s : str) : Prop :=
+    exists e, RangeExpr.from_str false false classify s = Ok e /\ (RangeExpr.elen e < 2 ^ 63)%Z.
+
   Definition IntRangeRule (fs : list (string * mval)) : Prop :=
     match fget "range" fs with
     | MList items => forall s, In (MFmt s) items -> HasRefs s
-    | MFmt s => HasRefs s \/ exists e, RangeExpr.from_str false false classify s = Ok e
+    | MFmt s => HasRefs s \/ RangeExprOk s
     | _ => True
     end.
 
@@ -271,8 +276,7 @@ Section Rules.
 
   (* ---------- job-side target classes (re-validation after substitution; not reached by
      template decoding, listed so that [Rule] covers every class the hooks know) ---------- *)
-  Definition RangeExprRule (fs : list (string * mval)) : Prop :=
-    exists e, RangeExpr.from_str false false classify (mstr (fget "range" fs)) = Ok e.
+  Definition RangeExprRule (fs : list (string * mval)) : Prop := RangeExprOk (mstr (fget "range" fs)).
   Definition IntRangeListRule (fs : list (string * mval)) : Prop :=
     forall it, In it (mitems (fget "range" fs)) -> exists z, parse_int (mstr it) = Some z.
   Definition FloatRangeListRule (fs : list (string * mval)) : Prop :=
@@ -283,7 +287,7 @@ Section Rules.
                 | MList items => [(fst kv, N.of_nat (List.length items))]
                 | MFmt r | MStr r =>
                   match RangeExpr.from_str false false classify r with
-                  | Ok e => [(fst kv, Z.to_N (RangeExpr.elen e))]
+                  | Ok e => if Z.ltb (RangeExpr.elen e) (2 ^ 63) then [(fst kv, Z.to_N (RangeExpr.elen e))] else []
                   | Raise _ => []
                   end
                 | _ => []
